@@ -349,6 +349,88 @@ def dgram_many_peers_case(rng, n):
     return g.line(), g.stats
 
 
+def reannounce_case(rng, dgram):
+    """announce at t0, re-announce (same ip; same or new port) at t0+x, housekeeping at t0+x+y with
+    x+y beyond the 30 min limit but y within it, then get_peers: the peer must still be there"""
+    g = Gen(rng, loop=dgram)
+    a, b = g.ips[0], g.ips[1]
+    ihn = g.ihs[0]
+    port = rng.choice([6881, 51413, 1, 65535, 0x0102])
+    port2 = port if rng.random() < 0.7 else (port % 65535) + 1
+    x = rng.choice([1200, 1000, 1799, 900, 1801, 5])
+    y = rng.choice([700, 1799, 1800, 1801, 900, 1000, 1])
+
+    def ann(pt):
+        if dgram:
+            g.emit(U(a, q=QN["announce_peer"], id=g.rid(), ih=hid(ihn), token=token(g.cur, a), port=str(pt)))
+        else:
+            g.emit("A,%s,%d,%d,%s" % (hid(ihn), a, pt, token(g.cur, a)))
+
+    def get():
+        if dgram:
+            g.emit(U(b, q=QN["get_peers"], id=g.rid(), ih=hid(ihn)))
+        else:
+            g.emit("P,%s,%d,%d" % (hid(ihn), b, 0))
+    ann(port)
+    if rng.random() < 0.5:      # a second peer that is not refreshed (control: must be pruned when old)
+        g.emit("A,%s,%d,%d,%s" % (hid(ihn), g.ips[2], 4242, token(g.cur, g.ips[2])))
+    g.emit("T,%d" % x)
+    ann(port2)
+    get()
+    g.emit("T,%d" % y)
+    g.old.append(g.prev)
+    g.prev, g.cur = g.cur, rng.getrandbits(31)
+    g.emit("H,%d" % g.cur)
+    get()
+    g.emit("D")
+    return g.line(), g.stats
+
+
+def cluster_case(rng):
+    """eight nodes that share a long prefix with each other and d bits with the own id fill the single
+    bucket; a ninth node then needs min(d, e)+1 consecutive splits of the own bucket"""
+    g = Gen(rng)
+    d = rng.choice([2, 3, 4, 7, 17, 64, 150])
+    base = near(rng, g.own, d)
+    for j in range(8):
+        g.emit("R,%s,%d,%d" % (hid(base ^ (j + 1)), g.ips[j % len(g.ips)], 1000 + j))
+    g.emit("D")
+    e = rng.choice([d + 3, d + 1, max(0, d - 1), 1, 158])
+    g.emit("R,%s,%d,%d" % (hid(near(rng, g.own, min(e, 158))), g.ips[0], 2000))
+    g.emit("D")
+    g.emit("R,%s,%d,%d" % (hid(base ^ 0x55), g.ips[1], 2001))      # 9th member of the cluster: discarded
+    return g.line(), g.stats
+
+
+def dgram_absent_case(rng):
+    """every key of every query kind individually absent ('~') and of the wrong bencode type ('!')"""
+    g = Gen(rng, loop=True)
+    a = g.ips[0]
+    ih = hid(g.ihs[0])
+    g.emit("R,%s,%d,%d" % (hid(near(rng, g.own, 3)), g.ips[1], 700))
+    for kind in ("ping", "find_node", "get_peers", "announce_peer"):
+        full = dict(t="6162", y="71", q=QN[kind], id=g.rid(), target="~", ih="~", token="~", port="~")
+        if kind == "find_node":
+            full["target"] = hid(g.new_id())
+        if kind in ("get_peers", "announce_peer"):
+            full["ih"] = ih
+        if kind == "announce_peer":
+            full["token"] = token(g.cur, a)
+            full["port"] = "6881"
+        g.emit(U(a, **full))
+        for key in ("t", "y", "q", "id", "target", "ih", "token", "port"):
+            if full[key] == "~":
+                continue
+            for bad in ("~", "!"):
+                f = dict(full)
+                f[key] = bad
+                g.emit(U(a, **f))
+                if kind == "announce_peer":
+                    g.emit(U(g.ips[1], q=QN["get_peers"], id=g.rid(), ih=ih))
+    g.emit("D")
+    return g.line(), g.stats
+
+
 def many_peers_case(rng, n):
     g = Gen(rng)
     ih = g.ihs[0]
@@ -430,23 +512,31 @@ def gen(seed, tier):
     for h in HAND:
         add("hand", (h, {}))
     q = tier == "quick"
-    for _ in range(150 if q else 1200):
+    for _ in range(90 if q else 1200):
         add("random", random_case(rng, rng.choice([10, 30, 60, 120]), rng.choice([0, 3, 8])))
-    for _ in range(6 if q else 40):
+    for _ in range(4 if q else 40):
         add("random-long", random_case(rng, 400, 25))
-    for _ in range(25 if q else 150):
+    for _ in range(14 if q else 150):
         add("deep-split", deep_split_case(rng, rng.choice([12, 40, 100, 159])))
-    for _ in range(40 if q else 300):
+    for _ in range(12 if q else 100):
+        add("cluster", cluster_case(rng))
+    for _ in range(25 if q else 300):
         add("bad-node", bad_node_case(rng))
-    for _ in range(30 if q else 200):
+    for _ in range(20 if q else 200):
         add("token", token_case(rng))
+    for _ in range(24 if q else 200):
+        add("reannounce", reannounce_case(rng, False))
+    for _ in range(16 if q else 120):
+        add("dgram-reannounce", reannounce_case(rng, True))
     for n in ([40, 130] if q else [33, 40, 64, 65, 100, 128, 129, 130, 200]):
         add("many-peers", many_peers_case(rng, n))
     # datagram level
-    for _ in range(60 if q else 500):
+    for _ in range(45 if q else 500):
         add("dgram-random", random_case(rng, rng.choice([10, 30, 60]), rng.choice([0, 4, 8]), loop=True))
-    for _ in range(25 if q else 200):
+    for _ in range(18 if q else 200):
         add("dgram-flow", dgram_flow_case(rng))
+    for _ in range(2 if q else 10):
+        add("dgram-absent", dgram_absent_case(rng))
     for _ in range(2 if q else 10):
         add("dgram-ports", dgram_ports_case(rng))
     for n in ([40] if q else [33, 64, 130]):
